@@ -39,33 +39,43 @@ Theorem unwritten_cell_is_none : forall (V : Type) shp grd (fld : list nat -> V)
 Proof. exact ck_unwritten_none. Qed.
 Print Assumptions unwritten_cell_is_none.
 
-(** ** which checkpoint is the latest *)
+(** ** which checkpoint is the latest (repaired selection 2367528 / a4e5b38:
+       max(files, key = float(time text of the name)), t = that float, int when integral) *)
 
-Theorem latest_is_numeric_max : forall ts, Forall (fun t => (t < 1000000)%N) ts ->
-  ck_pymax ck_lex_lt (map ck_name ts) = option_map ck_name (ck_pymax N.ltb ts).
-Proof. exact ck_latest_is_numeric_max. Qed.
-Print Assumptions latest_is_numeric_max.
-
-Theorem numeric_max_is_max : forall ts t, ck_pymax N.ltb ts = Some t -> In t ts /\ forall u, In u ts -> (u <= t)%N.
-Proof. exact ck_pymax_is_max. Qed.
-Print Assumptions numeric_max_is_max.
-
-Theorem name_order : forall a b, (a < 1000000)%N -> (b < 1000000)%N ->
-  ck_lex_lt (ck_name a) (ck_name b) = (a <? b)%N.
-Proof. exact ck_name_order. Qed.
-Print Assumptions name_order.
-
-(** the time read back from the name is the time written *)
-Theorem name_time_roundtrip : forall t, (t < 1000000)%N -> ck_parse_time (ck_fmt06 t) = t.
-Proof. exact ck_parse_roundtrip. Qed.
+(** time stamps in half units (t = h/2; int stamps "{:06}".format(int), float stamps of a float time
+    step "{:06}".format(float), e.g. grid_0001.5.h5): the key read back from a name is the time written *)
+Theorem name_time_roundtrip : forall s, ck_stamp_ok s -> ck_key (ck_stamp_name s) = fst s.
+Proof. exact ck_key_name. Qed.
 Print Assumptions name_time_roundtrip.
 
-(** refuted beyond: "grid_1000000.h5" < "grid_999999.h5" *)
-Theorem latest_refuted :
+(** hence the checkpoint chosen is the one with the largest time - for ALL times (any number of digits
+    below 10^20; Python writes floats >= 10^16 in exponent notation, outside this model), int and
+    half-integer stamps mixed *)
+Theorem latest_is_numeric_max : forall stamps, Forall ck_stamp_ok stamps ->
+  ck_latest_name (map ck_stamp_name stamps) =
+  option_map ck_stamp_name (ck_pymax (fun a b => (fst a <? fst b)%N) stamps).
+Proof. exact ck_latest_by_key. Qed.
+Print Assumptions latest_is_numeric_max.
+
+Theorem numeric_max_is_max : forall (stamps : list ck_stamp) s,
+  ck_pymax (fun a b => (fst a <? fst b)%N) stamps = Some s ->
+  In s stamps /\ forall u, In u stamps -> (fst u <= fst s)%N.
+Proof. exact (@ck_pymax_val_is_max ck_stamp fst). Qed.
+Print Assumptions numeric_max_is_max.
+
+(** behaviour of the PINNED tree (before 2367528), kept as documentation of the repaired defect: plain
+    max(files) is the string order, which is the numeric order only below 10^6 ... *)
+Theorem lexicographic_order_below_1e6 : forall a b, (a < 1000000)%N -> (b < 1000000)%N ->
+  ck_lex_lt (ck_name a) (ck_name b) = (a <? b)%N.
+Proof. exact ck_name_order. Qed.
+Print Assumptions lexicographic_order_below_1e6.
+
+(** ... and not beyond: "grid_1000000.h5" < "grid_999999.h5" as strings *)
+Theorem lexicographic_latest_refuted_pinned :
   ck_lex_lt (ck_name 1000000) (ck_name 999999) = true /\
   ck_pymax ck_lex_lt (map ck_name [999999; 1000000]%N) = Some (ck_name 999999).
 Proof. exact ck_latest_refuted. Qed.
-Print Assumptions latest_refuted.
+Print Assumptions lexicographic_latest_refuted_pinned.
 
 (** ** the driver *)
 
@@ -215,6 +225,12 @@ Proof. vm_compute. split; reflexivity. Qed.
 Example final_window_example :
   ck_lines_unsplit_nat 3 7 = [Some 0; Some 3; Some 1; Some 2; Some 6; Some 4; Some 5; Some 7].
 Proof. vm_compute. reflexivity. Qed.
+
+Example latest_examples :
+  ck_latest_name (map ck_stamp_name [(1999998, false); (2000000, false)]%N) = Some (ck_name 1000000) /\
+  ck_latest_name (map ck_stamp_name [(2, false); (3, true); (0, false)]%N) =
+    Some (ck_prefix ++ [48; 48; 48; 49; 46; 53]%N ++ ck_suffix).
+Proof. vm_compute. split; reflexivity. Qed.
 
 Example names_example : ck_name 40 = [103;114;105;100;95; 48;48;48;48;52;48; 46;104;53]%N.
 Proof. vm_compute. reflexivity. Qed.
